@@ -22,6 +22,7 @@ pub const WORDS: [&str; 18] = [
   "rust", "rusty", "ruby", "run", "running", "go", "gopher", "java", "jam", "lang", "fast", "quick",
   "safe", "the", "of", "search", "searching", "zig",
 ];
+pub const UNI_WORDS: [&str; 5] = ["vi\u{1ec7}t", "na\u{ef}ve", "\u{65e5}\u{672c}\u{8a9e}", "gr\u{fc}\u{df}e", "\u{451}\u{43b}\u{43a}\u{430}"];
 pub const KW_TAGS: [&str; 8] = ["red", "Red", "RED", "green", "blue", "Blue", "grün", "GRÜN"];
 pub const KW_CATS: [&str; 4] = ["news", "News", "sport", "tech"];
 pub const AUTHORS: [&str; 5] = ["alice", "Alice", "bob", "BOB", "carol"];
@@ -37,6 +38,8 @@ pub struct Knobs {
   pub long_postings: bool,
   /// every document holds the word `zig` once, a few hold it many times (block-max bounds differ between blocks)
   pub spiky: bool,
+  /// some bodies end in a word with 2-, 3- or 4-byte characters (edit distances count characters)
+  pub unicode_words: bool,
 }
 
 impl Default for Knobs {
@@ -50,6 +53,7 @@ impl Default for Knobs {
       multi_text: true,
       long_postings: false,
       spiky: false,
+      unicode_words: false,
     }
   }
 }
@@ -95,6 +99,10 @@ pub fn make_schema(r: &mut StdRng, k: &Knobs) -> Value {
           {"type": "keyword", "name": "user", "stored": true, "indexed": true, "fast": true, "nullable": true},
           {"type": "numeric", "name": "votes", "i64": true, "fast": true, "stored": true, "nullable": true}
         ]}
+      ]},
+      {"name": "reviews", "nullable": true, "fields": [
+        {"type": "keyword", "name": "author", "stored": true, "indexed": true, "fast": true, "nullable": true},
+        {"type": "numeric", "name": "stars", "i64": true, "fast": true, "stored": true, "nullable": true}
       ]}
     ]);
   }
@@ -147,6 +155,12 @@ pub fn make_doc(r: &mut StdRng, k: &Knobs, id: &str, ver: u64, vocab: usize) -> 
   } else if !chance(r, 1, 12) {
     let n = r.gen_range(1..=6);
     d.insert("body".into(), json!(words(r, n, vocab)));
+  }
+  if k.unicode_words && chance(r, 1, 4) {
+    if let Some(Value::String(t)) = d.get_mut("body") {
+      t.push(' ');
+      t.push_str(*pick(r, &UNI_WORDS));
+    }
   }
   if chance(r, 2, 3) {
     let n = r.gen_range(1..=3);
@@ -225,6 +239,22 @@ pub fn make_doc(r: &mut StdRng, k: &Knobs, id: &str, ver: u64, vocab: usize) -> 
       comments.push(Value::Object(c));
     }
     d.insert("comments".into(), Value::Array(comments));
+    // a second nested path at the same level (sibling nested clauses on different paths)
+    if chance(r, 1, 2) {
+      let n = r.gen_range(1..=3);
+      let mut reviews = Vec::new();
+      for _ in 0..n {
+        let mut c = serde_json::Map::new();
+        if chance(r, 5, 6) {
+          c.insert("author".into(), json!(*pick(r, &AUTHORS)));
+        }
+        if chance(r, 3, 4) {
+          c.insert("stars".into(), json!(r.gen_range(1..=5)));
+        }
+        reviews.push(Value::Object(c));
+      }
+      d.insert("reviews".into(), Value::Array(reviews));
+    }
   }
   Value::Object(d)
 }
@@ -454,10 +484,15 @@ pub fn abstract_doc(schema: &Schema, d: &Value, dict: &mut Dict) -> Value {
     Some(x @ Value::Object(_)) => vec![nested_obj_json(x, dict)],
     _ => vec![],
   };
+  let reviews: Vec<Value> = match d.get("reviews") {
+    Some(Value::Array(a)) => a.iter().map(|x| nested_obj_json(x, dict)).collect(),
+    Some(x @ Value::Object(_)) => vec![nested_obj_json(x, dict)],
+    _ => vec![],
+  };
   json!({
     "vec": [{"f": "emb", "vals": i64s_of(d.get("emb"))}],
     "text": text, "kw": kw, "i64": i64s, "f64": f64s,
-    "nested": [{"path": "comments", "objs": comments}],
+    "nested": [{"path": "comments", "objs": comments}, {"path": "reviews", "objs": reviews}],
   })
 }
 
